@@ -3,7 +3,11 @@
   `Forest.Inv` and `Forest.Normal` gives, handle for handle, `Spec.specReplaceX a b f`:
 
   * `b` next to `a`: the call is `remove(a)` (`remove_spec`, `specReplace_adjacent`);
-  * otherwise, `a` not between two text nodes (or consolidation off): the forest after
+  * otherwise the last consolidation — of the node that followed `a` with whatever stands before it
+    now (xot 609b613) — is, on a forest without adjacent text nodes, the consolidation of the former
+    left neighbour of `a` with its next sibling (`replace_last_eq_old`, `no_corner_of_normal`), the
+    form the following lemmas are stated with;
+  * `a` not between two text nodes (or consolidation off): the forest after
     `remove_subtree(a)` is again valid and normal (`drop_inv_normal`), so `insert_after` /
     `prepend` are the specification's move on it (`insertAfter_spec`, `prepend_spec`), the extra
     consolidation does nothing (`insertAfter_merge_noop`), and "move on the forest without `a`"
@@ -19,6 +23,7 @@ import XotModel.Lemmas.FspecReplGapT
 import XotModel.Lemmas.FspecReplGapNF2
 import XotModel.Lemmas.FspecReplGapNS2
 import XotModel.Lemmas.FspecSamePrepend
+import XotModel.Lemmas.FspecAllRepl6
 
 namespace XotModel
 open HTree Spec
@@ -50,6 +55,20 @@ theorem gap_or_not (f : Forest) (l r : List HTree) :
           exact ht
   · left
     intro h; exact absurd h hc
+
+/-- A forest without adjacent text nodes does not hold the children `… x b p a …` with `x`, `b`
+    text nodes: the corner excluded in `replace_last_eq_old` does not occur. -/
+theorem no_corner_of_normal {f : Forest} {a b q : Nat} {vq : Value} {l : List HTree} {A : HTree}
+    {r : List HTree} {t : HTree} (ra : ReplArgs f a b q vq l A r t) (norm : f.Normal) :
+    ∀ u x P N r0, l = u ++ x :: t :: [P] → r = N :: r0 → f.consolidation = true →
+      x.value.isText = true → P.value.isText = true → ¬ (t.value.isText = true ∧ N.value.isText = true) := by
+  intro u x P N r0 el _ hc hxt _ ⟨htt, _⟩
+  have hno : noAdjacentText (l ++ A :: r) = true := (validTree_node (ra.sq.valid (norm hc))).2.2.1 rfl
+  have e : l ++ A :: r = u ++ x :: t :: (P :: A :: r) := by rw [el]; simp
+  rw [e] at hno
+  have h2 := (noAdj_append.1 hno).2.1
+  rw [noAdj_cons_cons, Bool.and_eq_true] at h2
+  simp [hxt, htt] at h2
 
 /-- **replace**, handle for handle. -/
 theorem replace_spec {f : Forest} {a b : Nat} (inv : f.Inv) (norm : f.Normal)
@@ -87,7 +106,11 @@ theorem replace_spec {f : Forest} {a b : Nat} (inv : f.Inv) (norm : f.Normal)
           | panic => rw [heq] at hok; cases hok
         subst hres
         simp only at heq
-        rw [heq]
+        have hlast := replace_last_eq_old ra inv h1 h2 hp hia (no_corner_of_normal ra norm)
+        have heq1 : (f.replace a b).1 = (f2.removeConsolidate (some p) (f2.nextSibling p)).1 := by
+          rw [heq, ← hlast]
+          cases nextOf r A <;> rfl
+        rw [heq1]
         have hok1 : ((f.editAt (some q) (dropTop a)).insertAfter p b).2 = .ok := by rw [hia]
         have hnoop := insertAfter_merge_noop inv1 norm1 hok1
         have hspec := insertAfter_spec inv1 norm1 hok1
@@ -123,7 +146,11 @@ theorem replace_spec {f : Forest} {a b : Nat} (inv : f.Inv) (norm : f.Normal)
       obtain ⟨f2, hia, hfin⟩ := key
       rw [hia] at heq
       simp only at heq
-      rw [heq]
+      have hlast := replace_last_eq_old ra inv h1 h2 hp hia (no_corner_of_normal ra norm)
+      have heq1 : (f.replace a b).1 = (f2.removeConsolidate (some P.handle) (f2.nextSibling P.handle)).1 := by
+        rw [heq, ← hlast]
+        cases nextOf (N :: r0) A <;> rfl
+      rw [heq1]
       exact hfin
 
 end XotModel
